@@ -5,9 +5,6 @@ pub assume_specification<T: Clone> [<[T] as std::borrow::ToOwned>::to_owned] (s:
 pub assume_specification<T: Clone> [<[T]>::to_vec] (s: &[T]) -> (r: Vec<T>)
     ensures r@ == s@;
 
-pub assume_specification [String::as_bytes] (s: &String) -> (r: &[u8])
-    ensures r@ == vstd::utf8::encode_utf8(s@);
-
 #[verifier::external_type_specification]
 #[verifier::external_body]
 pub struct ExParseIntError(std::num::ParseIntError);
